@@ -435,6 +435,8 @@ def _lean_s(st):
         return f'.ite {st[1]} [{", ".join(_lean_s(x) for x in st[2])}] [{", ".join(_lean_s(x) for x in st[3])}]'
     if k == 'ret':
         return f'.ret {_lean_e(st[1])}'
+    if k == 'widen':
+        return '.widen [' + ', '.join(f'({x}, {_lean_e(e)})' for x, e in st[1]) + ']'
     return '.raise'
 
 
@@ -1312,14 +1314,16 @@ class _Alias:
                     for s_ in p_:
                         if s_[0] == 'assign':
                             assigns.append((s_[1], s_[2]))
+                        elif s_[0] == 'widen':
+                            assigns.extend(s_[1])
                         elif s_[0] == 'ite':
                             loop_assigns(s_[2])
                             loop_assigns(s_[3])
                 loop_assigns(body)
                 carried = {x for x, _ in assigns}
                 carry = [(x, e) for x, e in assigns if _root_vars(e) & carried and not _is_fresh(e)]
-                weak = [('assign', x, ('join', ('var', x), e)) for x, e in carry]
-                body2 = weak * min(len(carry), 6) + body2
+                if carry:
+                    body2 = [('widen', carry)] + body2       # iterated by the analysis until nothing grows
                 c = self.cond('loop: ' + head)
                 c2 = self.cond('loop, second pass: ' + head)
                 out.append(('ite', c, body + [('ite', c2, body2, [])], []))
@@ -1375,6 +1379,10 @@ class _Alias:
                 used |= _root_vars(st[1])
             elif k == 'link':
                 used |= _root_vars(st[1]) | _root_vars(st[3])
+            elif k == 'widen':
+                for x, e in st[1]:
+                    if x in used:
+                        used |= _root_vars(e)
             elif k == 'ite':
                 _Alias._used(st[2], used)
                 _Alias._used(st[3], used)
@@ -1395,6 +1403,12 @@ class _Alias:
                 seen_writes = {x for x in seen_writes if x[0] == 'L'} | {('L',) + st}
             else:
                 seen_writes = set()
+            if k == 'widen':
+                seen_writes = set()
+                pairs = [(x, e) for x, e in st[1] if x in used and not _is_fresh(e)]
+                if pairs:
+                    out.append(('widen', pairs))
+                continue
             if k == 'assign' and st[1] not in used:
                 continue
             if k == 'assign' and _is_fresh(st[2]) and st[2] != FRESH:
@@ -1447,6 +1461,13 @@ class _Alias:
                     out.append((k, ren_e(st[1], m)))
                 elif k == 'link':
                     out.append(('link', ren_e(st[1], m), st[2], ren_e(st[3], m)))
+                elif k == 'widen':
+                    for x, _ in st[1]:          # the arm widens its private copies
+                        if x not in m:
+                            t = self.tmp()
+                            out.append(('assign', t, ('var', x)))
+                            m[x] = t
+                    out.append(('widen', [(m[x], ren_e(e, m)) for x, e in st[1]]))
             for x, t in m.items():
                 if x in both and not first:
                     # assigned in either arm: one of the two new values, not the old one (`firsts[x]`: the first arm's)
@@ -1460,8 +1481,10 @@ class _Alias:
         for st in prog:
             if st[0] == 'ite':
                 t, e = self._flatten(st[2]), self._flatten(st[3])
-                if all(x[0] in ('assign', 'write', 'deep', 'link') for x in t + e) and not (st[1] == 0 and self.has_copy):
-                    both = {x[1] for x in t if x[0] == 'assign'} & {x[1] for x in e if x[0] == 'assign'}
+                if all(x[0] in ('assign', 'write', 'deep', 'link', 'widen') for x in t + e) and not (st[1] == 0 and self.has_copy):
+                    def assigned(p_):
+                        return {x[1] for x in p_ if x[0] == 'assign'} | {y for x in p_ if x[0] == 'widen' for y, _ in x[1]}
+                    both = assigned(t) & assigned(e)
                     firsts.clear()
                     out += arm(t, both, True) + arm(e, both, False)
                 else:
@@ -1503,6 +1526,15 @@ class _Alias:
                     if st[1] in R and not rv <= R:
                         R |= rv
                         changed = True
+                elif k == 'widen':
+                    for x, e in st[1]:
+                        rv = _root_vars(e)
+                        if x not in T and rv & T:
+                            T.add(x)
+                            changed = True
+                        if x in R and not rv <= R:
+                            R |= rv
+                            changed = True
                 elif k == 'link':
                     a, b = _root_vars(st[1]), _root_vars(st[3])
                     if b & T and not a <= T:
@@ -1523,6 +1555,10 @@ class _Alias:
                 elif k in ('write', 'deep'):
                     if _root_vars(st[1]) & T:
                         out.append(st)
+                elif k == 'widen':
+                    pairs = [(x, e) for x, e in st[1] if x in keep]
+                    if pairs:
+                        out.append(('widen', pairs))
                 elif k == 'link':
                     if (_root_vars(st[1]) | _root_vars(st[3])) & keep:
                         out.append(st)
@@ -1573,6 +1609,8 @@ class _Alias:
                     out.append(('link', ren_e(st[1]), st[2], ren_e(st[3])))
                 elif k == 'ite':
                     out.append(('ite', st[1], ren_p(st[2]), ren_p(st[3])))
+                elif k == 'widen':
+                    out.append(('widen', [(perm.get(x, x), ren_e(e)) for x, e in st[1]]))
                 else:
                     out.append(st)
             return out
